@@ -33,6 +33,7 @@ import ast
 import json
 import os
 import re
+import shutil
 import sys
 
 try:
@@ -417,7 +418,7 @@ def local_names(fn):
 # the emitted `origins`; this table only turns a deviation into a `problems` entry as well)
 EXPECT_ORIGIN = {
     'np': 'module numpy',
-    'range': 'builtin', 'len': 'builtin', 'int': 'builtin', 'max': 'builtin', 'float': 'builtin', 'bool': 'builtin',
+    'range': 'builtin', 'len': 'builtin', 'int': 'builtin', 'max': 'builtin', 'min': 'builtin', 'float': 'builtin', 'bool': 'builtin',
     'isinstance': 'builtin', 'ValueError': 'builtin', 'list': 'builtin', 'set': 'builtin', 'enumerate': 'builtin', 'random': 'module random',
     'randmio_und_signed': 'def bct/algorithms/reference.py:randmio_und_signed', 'randmio_dir_signed': 'def bct/algorithms/reference.py:randmio_dir_signed',
     'binarize': 'def bct/utils/other.py:binarize', 'normalize': 'def bct/utils/other.py:normalize',
@@ -1108,7 +1109,8 @@ PINNED = {
     # families that consist of source pins only (no interpreted part yet)
     'pinrew': [('bct/algorithms/reference.py', x) for x in (
         'randmio_und', 'randmio_dir', 'randmio_und_connected', 'randmio_dir_connected', 'latmio_und', 'latmio_dir', 'latmio_und_connected',
-        'latmio_dir_connected', 'randomizer_bin_und', 'randomize_graph_partial_und')] + [('bct/utils/miscellaneous_utilities.py', 'get_rng')],
+        'latmio_dir_connected', 'randomizer_bin_und', 'randomize_graph_partial_und',
+        '_has_rewirable_pair')] + [('bct/utils/miscellaneous_utilities.py', 'get_rng')],   # _has_rewirable_pair: the guard helper of the nine loops
     'pinmod': [('bct/algorithms/modularity.py', x) for x in (
         'community_louvain', 'modularity_louvain_und_sign', 'modularity_probtune_und_sign', 'modularity_finetune_und',
         'modularity_finetune_und_sign', 'modularity_finetune_dir', 'modularity_und_sign', 'link_communities')]
@@ -1158,9 +1160,37 @@ def pin_reference_text(families=None, skip=()):
     return '\n'.join(out)
 
 
-def write_pin_references(lean_dir):
+def write_pin_references(lean_dir, only=None):
     """refresh the reference sections of `Model/CoreIRPin.lean` (everything after the marker line) and rewrite
-    `Model/CoreIRPinMore.lean` from the current source — to be run on a reviewed revision of /repo only"""
+    `Model/CoreIRPinMore.lean` from the current source — to be run on a reviewed revision of /repo only.
+    With `only` (routine names): replace just the entries `def ref_<name> : SrcPin := …` of these routines and leave every other
+    entry of the two files as it is (several people refreshing different routines from different worktrees)"""
+    if only:
+        import tempfile
+        tmp = tempfile.mkdtemp(prefix='pinrefs_')
+        try:
+            os.makedirs(os.path.join(tmp, 'BctVerif', 'Model'))
+            files = ['CoreIRPin.lean', 'CoreIRPinMore.lean']
+            for f_ in files:
+                shutil.copy(os.path.join(lean_dir, 'BctVerif', 'Model', f_), os.path.join(tmp, 'BctVerif', 'Model', f_))
+            write_pin_references(tmp)
+            changed = []
+            for f_ in files:
+                fresh = open(os.path.join(tmp, 'BctVerif', 'Model', f_)).read()
+                p_ = os.path.join(lean_dir, 'BctVerif', 'Model', f_)
+                cur = open(p_).read()
+                out = cur
+                for name in only:
+                    pat = r'def ref_%s : SrcPin :=\n(?:.+\n)*' % re.escape(name)
+                    a, b = re.search(pat, fresh), re.search(pat, out)
+                    if a and b and a.group(0) != b.group(0):
+                        out = out[:b.start()] + a.group(0) + out[b.end():]
+                if out != cur:
+                    open(p_, 'w').write(out)
+                    changed.append(p_)
+            return changed
+        finally:
+            shutil.rmtree(tmp, ignore_errors=True)
     base_fams = sorted(f_ for f_ in PINNED if PIN_REF_FILE.get(f_, PIN_REF_DEFAULT) == 'CoreIRPin')
     more_fams = sorted(f_ for f_ in PINNED if PIN_REF_FILE.get(f_, PIN_REF_DEFAULT) != 'CoreIRPin')
     p0 = os.path.join(lean_dir, 'BctVerif', 'Model', 'CoreIRPin.lean')
@@ -5538,13 +5568,158 @@ def extract_wei_eff(fn, path):
     return r
 
 
-def lean_eff(r, path, prim, rl=None, rw=None, prim_inv=None):
+LOCW_FIELDS = ['branch', 'out', 'zN', 'u', 'uN', 'v', 'va', 'vai', 'vb', 'vbi', 'sw', 'swF1', 'swM1', 'swU1', 'swV1', 'swF2', 'swM2', 'swV2', 'swU2', 'e',
+               'callee', 'lenCbrt', 'lenF', 'cm', 'c1', 'c2', 'se', 'seCbrt', 'seF1', 'se1', 'seF2', 'se2', 'numer', 'o1', 'o2', 'o3', 'nd', 't', 'tz', 'sa',
+               'sam', 'sau', 'sav', 'sam2', 'sav2', 'sau2', 'denom', 'd1', 'dp', 'd2', 'd3', 'st', 'sti', 'sn', 'sd']
+LOCW_NUM = {'branch', 'nd', 'tz', 'dp'}
+LOCW_BOOL = {'lenCbrt', 'seCbrt'}
+
+
+def locw_default():
+    return {k: ('99' if k in LOCW_NUM else 'false' if k in LOCW_BOOL else q('?')) for k in LOCW_FIELDS}
+
+
+def extract_locw(fn, path, which):
+    """efficiency_wei: the statements of branch number `which` of the `if` chain (Model/CoreIRLocW.lean: LocWIR)"""
+    X = _TX
+    r = Routine(fn.name, path)
+    r.line = fn.lineno
+    f = locw_default()
+    f['branch'] = '%d' % which
+    r.fields = f
+
+    def sub(node, what):
+        if isinstance(node, ast.Subscript):
+            return node.value, node.slice
+        raise Unrec(node, 'expected `%s`' % what)
+
+    def at2(node, what):
+        v, sl = sub(node, what)
+        if isinstance(sl, ast.Tuple) and len(sl.elts) == 2:
+            return v, sl.elts[0], sl.elts[1]
+        raise Unrec(node, 'expected `%s`' % what)
+
+    def tr(node, what):
+        if isinstance(node, ast.Attribute) and node.attr == 'T':
+            return node.value
+        raise Unrec(node, 'expected `%s`' % what)
+
+    def call1(node, what):
+        """f(x) -> (f, x)"""
+        if isinstance(node, ast.Call) and isinstance(node.func, ast.Name) and len(node.args) == 1 and not node.keywords:
+            return node.func.id, node.args[0]
+        raise Unrec(node, 'expected `%s`' % what)
+    try:
+        body = body_wo_doc(fn)
+        chain = [st for st in body if isinstance(st, ast.If) and isinstance(st.test, ast.Compare) and isinstance(st.test.ops[0], (ast.Eq, ast.In))]
+        if len(chain) != 1:
+            raise Unrec(fn, 'expected exactly one `if local == …` chain')
+        node = chain[0]
+        for _ in range(which):
+            if len(node.orelse) != 1 or not isinstance(node.orelse[0], ast.If):
+                raise Unrec(node, 'expected an `elif` after the branch')
+            node = node.orelse[0]
+        br = node.body
+        r.parts = {'body': lines_of(br)}
+        r.counts = {'branch': len(br)}
+        if len(br) != 2:
+            raise Unrec(node, 'expected two statements in the branch, found %d' % len(br))
+        w = 'E = np.zeros((n,))'
+        t, v = X.assign(br[0], w)
+        z = X.np1(v, 'zeros', w)[0]
+        if not (isinstance(z, ast.Tuple) and len(z.elts) == 1):
+            raise Unrec(br[0], 'expected `%s`' % w)
+        f['out'], f['zN'] = X.nm(t, 'target'), X.nm(z.elts[0], 'length')
+        lp = br[1]
+        it = lp.iter if isinstance(lp, ast.For) else None
+        if not (it is not None and not lp.orelse and isinstance(it, ast.Call) and isinstance(it.func, ast.Name) and it.func.id == 'range'
+                and len(it.args) == 1 and not it.keywords and len(lp.body) == 6):
+            raise Unrec(lp, 'expected `for u in range(n):` with six statements')
+        f['u'], f['uN'] = X.nm(lp.target, 'loop variable'), X.nm(it.args[0], 'bound')
+        b0, b1, b2, b3, b4, b5 = lp.body
+        w = 'V, = np.where(np.logical_or(Gw[u, :], Gw[:, u].T))'
+        t, v = X.assign(b0, w)
+        lo = np_call(X.np1(v, 'where', w)[0], 'logical_or', 2)
+        if not (isinstance(t, ast.Tuple) and len(t.elts) == 1 and lo):
+            raise Unrec(b0, 'expected `%s`' % w)
+        va, vai, s1 = at2(lo[0], w)
+        vb, s2, vbi = at2(tr(lo[1], w), w)
+        if not (full_slice(s1) and full_slice(s2)):
+            raise Unrec(b0, 'expected `%s`' % w)
+        f['v'], f['va'], f['vai'], f['vb'], f['vbi'] = X.nm(t.elts[0], 'target'), X.nm(va, 'matrix'), X.nm(vai, 'node'), X.nm(vb, 'matrix'), X.nm(vbi, 'node')
+        w = 'sw = cuberoot(Gw[u, V]) + cuberoot(Gw[V, u].T)'
+        t, v = X.assign(b1, w)
+        l, rt = X.binop(v, ast.Add, w)
+        f1, a1 = call1(l, w)
+        f2, a2 = call1(rt, w)
+        m1, u1, v1 = at2(a1, w)
+        m2, v2, u2 = at2(tr(a2, w), w)
+        f['sw'], f['swF1'], f['swM1'], f['swU1'], f['swV1'] = X.nm(t, 'target'), q(f1), X.nm(m1, 'matrix'), X.nm(u1, 'node'), X.nm(v1, 'neighbours')
+        f['swF2'], f['swM2'], f['swV2'], f['swU2'] = q(f2), X.nm(m2, 'matrix'), X.nm(v2, 'neighbours'), X.nm(u2, 'node')
+        w = 'e = distance_inv_wei(Gl[np.ix_(V, V)]) / e = distance_inv_wei(cuberoot(Gl)[np.ix_(V, V)])'
+        t, v = X.assign(b2, w)
+        cal, arg = call1(v, w)
+        cm, ix = sub(arg, w)
+        ixa = np_call(ix, 'ix_', 2)
+        if not ixa or ix.keywords:
+            raise Unrec(b2, 'expected `%s`' % w)
+        if isinstance(cm, ast.Call):
+            lf, cm = call1(cm, w)
+            f['lenCbrt'], f['lenF'] = 'true', q(lf)
+        else:
+            f['lenCbrt'], f['lenF'] = 'false', q('')
+        f['e'], f['callee'], f['cm'], f['c1'], f['c2'] = X.nm(t, 'target'), q(cal), X.nm(cm, 'matrix'), X.nm(ixa[0], 'neighbours'), X.nm(ixa[1], 'neighbours')
+        w = 'se = e + e.T / se = cuberoot(e) + cuberoot(e.T)'
+        t, v = X.assign(b3, w)
+        l, rt = X.binop(v, ast.Add, w)
+        if isinstance(l, ast.Call) or isinstance(rt, ast.Call):
+            sf1, l = call1(l, w)
+            sf2, rt = call1(rt, w)
+            f['seCbrt'], f['seF1'], f['seF2'] = 'true', q(sf1), q(sf2)
+        else:
+            f['seCbrt'], f['seF1'], f['seF2'] = 'false', q(''), q('')
+        f['se'], f['se1'], f['se2'] = X.nm(t, 'target'), X.nm(l, 'summand'), X.nm(tr(rt, w), 'transposed summand')
+        w = 'numer = np.sum(np.outer(sw.T, sw) * se) / 2'
+        t, v = X.assign(b4, w)
+        sm_, nd = X.binop(v, ast.Div, w)
+        ou, o3 = X.binop(X.np1(sm_, 'sum', w)[0], ast.Mult, w)
+        oa = np_call(ou, 'outer', 2)
+        if not oa or ou.keywords:
+            raise Unrec(b4, 'expected `%s`' % w)
+        f['numer'], f['o1'], f['o2'], f['o3'], f['nd'] = X.nm(t, 'target'), X.nm(tr(oa[0], w), 'factor'), X.nm(oa[1], 'factor'), X.nm(o3, 'factor'), X.nat(nd, 'divisor')
+        w = 'if numer != 0: sa = A[u, V] + A[V, u].T; denom = np.sum(sa)**2 - np.sum(sa * sa); E[u] = numer / denom'
+        if not (isinstance(b5, ast.If) and not b5.orelse and len(b5.body) == 3 and isinstance(b5.test, ast.Compare) and len(b5.test.ops) == 1
+                and isinstance(b5.test.ops[0], ast.NotEq)):
+            raise Unrec(b5, 'expected `%s`' % w)
+        f['t'], f['tz'] = X.nm(b5.test.left, 'tested name'), X.nat(b5.test.comparators[0], 'literal')
+        t, v = X.assign(b5.body[0], w)
+        l, rt = X.binop(v, ast.Add, w)
+        m1, u1, v1 = at2(l, w)
+        m2, v2, u2 = at2(tr(rt, w), w)
+        f['sa'], f['sam'], f['sau'], f['sav'] = X.nm(t, 'target'), X.nm(m1, 'matrix'), X.nm(u1, 'node'), X.nm(v1, 'neighbours')
+        f['sam2'], f['sav2'], f['sau2'] = X.nm(m2, 'matrix'), X.nm(v2, 'neighbours'), X.nm(u2, 'node')
+        t, v = X.assign(b5.body[1], w)
+        pw, s2_ = X.binop(v, ast.Sub, w)
+        base, dp = X.binop(pw, ast.Pow, w)
+        d2, d3 = X.binop(X.np1(s2_, 'sum', w)[0], ast.Mult, w)
+        f['denom'], f['d1'], f['dp'], f['d2'], f['d3'] = X.nm(t, 'target'), X.nm(X.np1(base, 'sum', w)[0], 'links'), X.nat(dp, 'exponent'), X.nm(d2, 'links'), X.nm(d3, 'links')
+        t, v = X.assign(b5.body[2], w)
+        st, sti = sub(t, w)
+        sn, sd = X.binop(v, ast.Div, w)
+        f['st'], f['sti'], f['sn'], f['sd'] = X.nm(st, 'target'), X.nm(sti, 'node'), X.nm(sn, 'numerator'), X.nm(sd, 'denominator')
+    except Unrec as e:
+        r.bad(e.node if hasattr(e.node, 'lineno') else fn, e.msg)
+    return r
+
+
+def lean_eff(r, path, prim, rl=None, rw=None, prim_inv=None, rlw=(), prim_cb=None):
     relb = os.path.basename(path)
     f = r.fields
     a, b = r.parts.get('body', (r.line, r.line))
     out = ['import BctVerif.Props.CoresEff',
            'import BctVerif.Props.CoresLoc',
            'import BctVerif.Props.CoresEffW',
+           'import BctVerif.Props.CoresLocW',
            'import BctVerif.Props.CoresUtil',
            '/-!',
            '# GENERATED by translate/cores.py (family eff) — do not edit.  Re-emitted from the current source on every check run.',
@@ -5619,6 +5794,26 @@ def lean_eff(r, path, prim, rl=None, rw=None, prim_inv=None):
         out.append('theorem efficiency_wei_computes {n : Nat} (W : AMat Rat n) :\n'
                    '    Bct.CoreIR.EffW.runWei ir_efficiency_wei (n + 1) (Bct.Cores.Dijk.embG W) = efficiencyWei W :=\n'
                    '  Bct.Cores.EffW.link_efficiency_wei _ efficiency_wei_ok W\n')
+    if prim_cb is not None and rlw:
+        out += lean_folded_primitive(prim_cb, 'the `local` branches of efficiency_wei')
+    for (bname, ref, which), rb in zip((('original', 'refOriginal', 0), ('local', 'refLocal', 1)), rlw):
+        fb = rb.fields
+        a4, b4 = rb.parts.get('body', (rb.line, rb.line))
+        bad = bool(rb.problems or (rw is not None and rw.problems))
+        for p in rb.problems:
+            out.append('-- NOT RECOGNISED: ' + p.replace('\n', ' '))
+        out.append('/-- the branch %s of `efficiency_wei` (%s:%d-%d) -/' % ("`local == 'original'`" if which == 0 else "`local in (True, 'local')`", relb, a4, b4))
+        out.append('def locw_efficiency_wei_%s : Bct.CoreIR.LocW.LocWIR :=\n  { base := ir_efficiency_wei,\n    %s }\n'
+                   % (bname, ', '.join('%s := %s' % (k, fb[k]) for k in LOCW_FIELDS)))
+        out.append('theorem efficiency_wei_%s_ok : Bct.CoreIR.LocW.locWOk Bct.CoreIR.LocW.%s locw_efficiency_wei_%s = true := by\n  first | decide | fail '
+                   '"efficiency_wei_%s_ok: the statements of the branch extracted from efficiency_wei (%s:%d-%d) %s"\n'
+                   % (bname, ref, bname, bname, relb, a4, b4, 'were not all recognised by translate/cores.py' if bad else 'are not the expected program'))
+        if which == 1:
+            out.append('theorem efficiency_wei_local_computes {n : Nat} (cb : Rat → Rat) (hcb0 : cb 0 = 0) (hinv : ∀ x, x ≠ 0 → cb (1 / x) = 1 / cb x)\n'
+                       '    (hne : ∀ x, x ≠ 0 → cb x ≠ 0) (W : AMat Rat n) (u : Fin n) :\n'
+                       '    Bct.CoreIR.LocW.runLocW cb locw_efficiency_wei_local (fun k => k + 1) (Bct.Cores.Dijk.embG W) u =\n'
+                       '      Bct.LocalEff.effWeiNode W (AMat.map cb W) u :=\n'
+                       '  Bct.Cores.LocW.link_efficiency_wei_local _ efficiency_wei_local_ok cb hcb0 hinv hne W u\n')
     out.append('end Bct.Gen.CoresEff')
     return '\n'.join(out) + '\n'
 
@@ -5663,13 +5858,30 @@ def family_eff():
         rw = Routine(wname, path); rw.problems.append('%s: %s' % (wname, err or 'function not found in ' + path)); rw.inner = None
         rw.fields = dict({k: q('?') for k in WEI_EFF_FIELDS}, den='(.lit 0)', adjLit='99', tests='[]', guardKeys='[]', params='[]', defaults='[]')
     prim_inv = fold_util_primitive(path, 'invert')
-    return {'module': 'BctVerif.Gen.CoresEff', 'file': 'CoresEff.lean', 'text': lean_eff(r, path, prim, rl, rw, prim_inv), 'sources': [path],
+    prim_cb = fold_util_primitive(path, 'cuberoot')
+    rlw = []
+    for which in (0, 1):
+        if wname in fns:
+            try:
+                rb = extract_locw(fns[wname], path, which)
+            except Exception as e:  # noqa
+                rb = Routine(wname, path); rb.problems.append('%s: extractor of branch %d raised %s: %s' % (wname, which, type(e).__name__, e))
+                rb.fields = dict(locw_default(), branch='%d' % which)
+        else:
+            rb = Routine(wname, path); rb.fields = dict(locw_default(), branch='%d' % which)
+        rlw.append(rb)
+    return {'module': 'BctVerif.Gen.CoresEff', 'file': 'CoresEff.lean', 'text': lean_eff(r, path, prim, rl, rw, prim_inv, rlw, prim_cb), 'sources': [path],
             'routines': {r.name: dict(getattr(r, 'counts', {}), line=r.line, recognised=not r.problems),
                          r.name + ' (local branch)': dict(getattr(rl, 'counts', {}), line=rl.line, recognised=not rl.problems),
                          wname + ' (global part)': dict(getattr(rw, 'counts', {}), line=rw.line, recognised=not rw.problems),
                          'binarize (called by efficiency_bin)': dict(line=prim.line, file=rel(prim.file), recognised=not prim.problems),
-                         'invert (called by efficiency_wei)': dict(line=prim_inv.line, file=rel(prim_inv.file), recognised=not prim_inv.problems)},
-            'problems': list(r.problems) + list(rl.problems) + list(rw.problems) + list(prim.problems) + list(prim_inv.problems)}
+                         wname + " (branch local == 'original')": dict(getattr(rlw[0], 'counts', {}), line=rlw[0].line, recognised=not rlw[0].problems),
+                         wname + " (branch local in (True, 'local'))": dict(getattr(rlw[1], 'counts', {}), line=rlw[1].line, recognised=not rlw[1].problems),
+                         'invert (called by efficiency_wei)': dict(line=prim_inv.line, file=rel(prim_inv.file), recognised=not prim_inv.problems),
+                         'cuberoot (called by the local branches of efficiency_wei)': dict(line=prim_cb.line, file=rel(prim_cb.file),
+                                                                                         recognised=not prim_cb.problems)},
+            'problems': list(r.problems) + list(rl.problems) + list(rw.problems) + [p_ for rb in rlw for p_ in rb.problems] + list(prim.problems)
+                        + list(prim_inv.problems) + list(prim_cb.problems)}
 
 
 # ====================================================================== family 'walks'
@@ -6536,10 +6748,10 @@ NULL_FIELDS = ['name', 'params', 'defaults', 'rng', 'rngCallee', 'rngArg', 'guar
                'nL', 'nR', 'nC', 'wr', 'eff', 'callee', 'cArg1', 'cArg2', 'cKw', 'cSeed', 'apr', 'anr', 'eApr', 'eAp', 'eAnr', 'eAn', 'w0', 'z1', 'z2',
                'sVar', 's1', 's2', 'sTest', 'sEq', 'acur', 'pa', 'arcur', 'par', 'acurE', 'na', 'arcurE', 'nar', 'strs', 'wv', 'wvS', 'wvW', 'wvA',
                'wvTriu', 'iv', 'jv', 'ijA', 'ijTriu', 'lij', 'lijA', 'lijTriu', 'p', 'po1', 'po2', 'fq', 'fqLit', 'oind0', 'as0P', 'as0L', 'w0a',
-               'w0aL', 'w0aO', 'w0aS', 'w0aW', 'wsize', 'wsOf', 'period', 'perOne', 'perOf', 'perTy', 'lq', 'lqA', 'lqB', 'lqC', 'lqTy', 'm', 'mIn',
+               'w0aL', 'w0aO', 'w0aS', 'w0aW', 'wsize', 'wsOf', 'period', 'perTy', 'perMin', 'perOne', 'perOf', 'perMax', 'perMaxA', 'perMaxB', 'lq', 'lqA', 'lqB', 'lqC', 'lqTy', 'm', 'mIn',
                'oind', 'asP', 'asL', 'rr', 'rRng', 'rN', 'rM', 'rP', 'qv', 'r1', 'enumOf', 'o', 'oOf', 'oIdx', 'w0b', 'w0bL', 'w0bO', 'w0bS', 'w0bW',
                'w0bR', 'book', 'bigO', 'bigOOf', 'bigOIdx', 'dels', 'symm', 'tailCount']
-NULL_NUM = {'fdV', 'nC', 's1', 's2', 'sEq', 'fqLit', 'perOne', 'lqB', 'tailCount'}
+NULL_NUM = {'fdV', 'nC', 's1', 's2', 'sEq', 'fqLit', 'perOne', 'perMaxB', 'lqB', 'tailCount'}
 NULL_BOOL = {'wvTriu', 'ijTriu', 'lijTriu'}
 NULL_MASK = {'ap', 'an', 'apr', 'anr'}
 NULL_LIST = {'strs', 'book', 'dels'}
@@ -6780,12 +6992,19 @@ def extract_null(fn, path):
         w = 'wsize = np.size(Wv)'
         t, v = X.assign(e0, w)
         f['wsize'], f['wsOf'] = X.nm(t, 'target'), X.nm(X.np1(v, 'size', w)[0], 'weights')
-        w = 'wei_period = np.round(1 / wei_freq).astype(int)'
+        w = 'wei_period = int(min(np.round(1 / wei_freq), max(wsize, 1)))'
         t, v = X.assign(e1, w)
-        if not (isinstance(v, ast.Call) and isinstance(v.func, ast.Attribute) and v.func.attr == 'astype' and len(v.args) == 1 and not v.keywords):
-            raise Unrec(v, 'expected `%s`' % w)
-        nu, de = X.binop(X.np1(v.func.value, 'round', w)[0], ast.Div, w)
-        f['period'], f['perOne'], f['perOf'], f['perTy'] = X.nm(t, 'target'), X.nat(nu, 'literal'), X.nm(de, 'frequency'), X.nm(v.args[0], 'type')
+
+        def bcall(node, k):
+            if isinstance(node, ast.Call) and isinstance(node.func, ast.Name) and len(node.args) == k and not node.keywords:
+                return node.func.id, node.args
+            raise Unrec(node, 'expected `%s`' % w)
+        ty, (a_,) = bcall(v, 1)
+        mn, (rd, mxc) = bcall(a_, 2)
+        mx, (ma, mb) = bcall(mxc, 2)
+        nu, de = X.binop(X.np1(rd, 'round', w)[0], ast.Div, w)
+        f['period'], f['perTy'], f['perMin'], f['perOne'], f['perOf'] = X.nm(t, 'target'), q(ty), q(mn), X.nat(nu, 'literal'), X.nm(de, 'frequency')
+        f['perMax'], f['perMaxA'], f['perMaxB'] = q(mx), X.nm(ma, 'number of weights'), X.nat(mb, 'literal')
         w = 'lq = np.arange(wsize, 0, -wei_period, dtype=int)'
         t, v = X.assign(e2, w)
         c = np_call(v, 'arange', 3)
@@ -7936,6 +8155,7 @@ if __name__ == '__main__':
     elif len(sys.argv) > 1 and sys.argv[1] == '--canon-locals':
         sys.stdout.write(canon_locals_text())
     elif len(sys.argv) > 2 and sys.argv[1] == '--pin-references':
-        print('\n'.join(write_pin_references(sys.argv[2])))
+        # --pin-references <lean dir> [--only name,name,…]
+        print('\n'.join(write_pin_references(sys.argv[2], sys.argv[4].split(',') if len(sys.argv) > 4 and sys.argv[3] == '--only' else None)))
     else:
         print(json.dumps(generate(sys.argv[1] if len(sys.argv) > 1 else None), indent=1))
